@@ -450,7 +450,10 @@ func (x *Exec) specIndex(base, idx *Value, st *State) *Value {
 		// map
 		if base.T != nil {
 			if mt, ok := types.Unalias(base.T).Underlying().(*types.Map); ok {
-				return x.mapLoad(st, mt, base.Tm, x.coerce(idx, mt.Key()).term())
+				// Go semantics: the zero value for an absent key
+				k := x.coerce(idx, mt.Key()).term()
+				ok := Select(Select(st.hget(x.mapDomKey(mt)), base.Tm), k)
+				return x.mergeVal(ok, x.mapLoad(st, mt, base.Tm, k), x.zero(mt.Elem()))
 			}
 		}
 	}
@@ -666,7 +669,9 @@ func (x *Exec) specCall(e *ast.CallExpr, sc *SpecScope, st *State) *Value {
 		bvName := fmt.Sprintf("%s!q%d", kid.Name, len(sc.boundChain()))
 		bvT := Var(bvName, srt)
 		inner := &SpecScope{names: map[string]*Value{}, bound: map[string]*Term{kid.Name: bvT}, parent: sc, old: sc.old, pkg: sc.pkg}
+		x.vc.noDefine++
 		body := x.evalSpec(e.Args[bodyIdx], inner, st).Tm
+		x.vc.noDefine--
 		if len(e.Args) == 4 {
 			lo := x.specInt(x.evalSpec(e.Args[1], inner, st))
 			hi := x.specInt(x.evalSpec(e.Args[2], inner, st))
@@ -745,6 +750,27 @@ func (x *Exec) specCall(e *ast.CallExpr, sc *SpecScope, st *State) *Value {
 		}
 		et := types.Unalias(v.T).Underlying().(*types.Slice).Elem()
 		return &Value{Tm: x.sliceContents(st, v.Tm, x.sortOf(et), et)}
+	case "felems":
+		// felems(s, f): the array (index -> value of field f) behind a slice of struct values
+		v := arg(0)
+		id, ok := e.Args[1].(*ast.Ident)
+		if !ok {
+			panic(engErr("felems(s, field) expected"))
+		}
+		et := types.Unalias(v.T).Underlying().(*types.Slice).Elem()
+		fs, key := x.fieldsOf(et)
+		for _, f := range fs {
+			if f.Name != id.Name {
+				continue
+			}
+			srt := f.S
+			if srt == nil {
+				srt = x.sortOf(f.T)
+			}
+			k, ks := x.structElemKey(key, []string{f.Name}, srt, f.T)
+			return &Value{Tm: Select(st.hget(k, ks), SArr(v.Tm))}
+		}
+		panic(engErr("felems: no field %s", id.Name))
 	case "bytes":
 		// abstract content of a byte slice
 		v := arg(0)
